@@ -1,0 +1,59 @@
+//! Verification hooks for properties C03 (allocation contract) and C10 (out-of-memory and
+//! allocation-option contract): thin read-only wrappers of crate-private items.  No behaviour of
+//! their own.
+
+use crate::plan::Mutator;
+use crate::util::alloc::AllocatorSelector;
+use crate::util::Address;
+use crate::vm::VMBinding;
+use crate::MMTK;
+
+/// Name of the space-function-table entry that owns `addr` (the empty entry for addresses MMTk
+/// does not manage).
+pub fn sft_name(addr: Address) -> &'static str {
+    crate::mmtk::SFT_MAP.get_checked(addr).name()
+}
+
+/// Name of the space behind the allocator `selector` of `mutator`.
+///
+/// # Safety
+/// `selector` must come from `memory_manager::get_allocator_mapping` and not be `None`.
+pub unsafe fn allocator_space_name<VM: VMBinding>(
+    mutator: &Mutator<VM>,
+    selector: AllocatorSelector,
+) -> &'static str {
+    mutator.allocator(selector).get_space().get_name()
+}
+
+/// `Space::address_in_space(addr)` of the space behind the allocator `selector` of `mutator`.
+///
+/// # Safety
+/// `selector` must come from `memory_manager::get_allocator_mapping` and not be `None`.
+pub unsafe fn allocator_space_contains<VM: VMBinding>(
+    mutator: &Mutator<VM>,
+    selector: AllocatorSelector,
+    addr: Address,
+) -> bool {
+    mutator
+        .allocator(selector)
+        .get_space()
+        .address_in_space(addr)
+}
+
+/// Largest request the allocator behind `AllocationSemantics::NonMoving` accepts (the
+/// `debug_assert!` at the head of its `alloc`), for the non-moving policy compiled in.
+pub fn nonmoving_max_object_size() -> usize {
+    if cfg!(feature = "immortal_as_nonmoving") {
+        usize::MAX
+    } else if cfg!(feature = "marksweep_as_nonmoving") {
+        crate::policy::marksweepspace::native_ms::MAX_OBJECT_SIZE
+    } else {
+        crate::policy::immix::MAX_IMMIX_OBJECT_SIZE
+    }
+}
+
+/// Whether a collection has been requested and the mutators have not all been stopped for it
+/// yet (`GCTrigger::request_flag`).
+pub fn gc_requested<VM: VMBinding>(mmtk: &MMTK<VM>) -> bool {
+    mmtk.gc_trigger.verif_is_requested()
+}
